@@ -138,3 +138,19 @@ for cnt in (0, 1):
                      unbounded="outlen <= 2^40 (loop contract on the block loop: block numbering INT32BE(i) at every block, ceil(outlen/32) blocks, exactly outlen bytes), count = %d" % cnt))
 JOBS.append(dict(SHAPE, name="pbkdf2.shape.chain", defs=["TJV_PBKDF2", "TJV_OL=40"], loops=[INNER], unwind=66,
                  unbounded="every count (all of unsigned long): loop contract on the PRF-chain loop (exactly max(count,1) PRF evaluations per block); outlen = 40"))
+
+JOBS.append({
+    "name": "hmac.setkey.u", "files": ["harness/h_hmac_setkey.c", HMAC, "stubs/mem.c", "stubs/clean_stub.c"],
+    "functions": ["tinyjambu_hmac_init", "tinyjambu_hmac_set_key (static, inlined)"],
+    "props": ["C12", "C06"], "default_props": ["C12"], "tags": [(r"^hmac set_key:", ["C12"])], "unwind": 66, "cost": 20, "mem_gb": 8, "mem_share": 0.3,
+    "unbounded": "every key length <= 2^40 (all loops of set_key are bounded by the 64-byte block: complete unwinding), key in an exact-size object, all key bytes",
+    "assumes": ["hash API replaced by a protocol-recording contract stub (arbitrary digest)"],
+})
+
+JOBS.append({
+    "name": "hmac.finalize.u", "files": ["harness/h_hmac_final.c", HMAC, "stubs/mem.c", "stubs/clean_stub.c"],
+    "functions": ["tinyjambu_hmac_finalize", "tinyjambu_hmac_set_key (static, inlined)"],
+    "props": ["C12", "C06"], "default_props": ["C12"], "tags": [(r"^hmac finalize:", ["C12"])], "unwind": 66, "cost": 20, "mem_gb": 8, "mem_share": 0.3,
+    "unbounded": "every key length <= 2^40, key in an exact-size object, all key bytes, arbitrary inner state",
+    "assumes": ["hash API replaced by a protocol-recording contract stub (arbitrary digests)"],
+})
